@@ -311,3 +311,19 @@ def ax_find(z, x):
 def ax_slice_len(z, x):
     if x[0] == "len" and isinstance(x[1], tuple) and x[1][0] == "slice":
         pass
+
+
+@axiom
+def ax_parsed_int(z, x):
+    """x = payload of <uN as FromStr>::from_str(s): x <= 10^len(s) - 1 (at most len(s) digits)"""
+    if x[0] == "payload" and x[2] == "Ok" and isinstance(x[1], tuple) and x[1][0] == "call" and x[1][1].endswith("::from_str") \
+            and "impl std::str::FromStr for u" in x[1][1]:
+        a = x[1][2][0]
+        if isinstance(a, tuple) and a[0] == "&":
+            a = a[1]
+        from .models import len_term
+        ln = len_term(a)
+        xa, oa = lin(ln)
+        u = z.ub(xa) if xa is not None else 0
+        if u is not None and 0 <= u + oa <= 19:
+            return [("Le", x, const(10 ** (u + oa) - 1))]
